@@ -755,5 +755,19 @@ class Gen:
         return ArithCmd(self.arith_segs(depth), self.redirs(depth, 0.1))
 
     def program(self) -> Tuple[P, str]:
+        if getattr(self, "p_plain_list", 0) and self.r.chance(self.p_plain_list):
+            return self.plain_list()
         p = self.prog(0)
         return p, finish_heredocs(p.render(), p)
+
+    def plain_list(self) -> Tuple[P, str]:
+        """2-4 metacharacter-free simple commands joined by ; && || & or newlines (what a fast path on 'plain' text would see)"""
+        r = self.r
+        items = []
+        for _ in range(r.randint(2, 4)):
+            argv, label = self.atom_argv()
+            ws = [lit(a) for a in argv if all(ch.isalnum() or ch in "@%+,:./-_" for ch in a)] or [lit("ls")]
+            items.append(Simple([], ws, [], label=label))
+        ops = [r.pick([";", "&&", "||", "\n", "\n", "&"]) for _ in items[1:]]
+        p = Seq(items, ops)
+        return p, p.render()
